@@ -421,3 +421,69 @@ impl Orchestrator {
     self.0.route_message(msgs, wait_for_peer).await
   }
 }
+
+/// Read-only occupancy gauges and an fd life-cycle log for the io_uring backend.
+#[cfg(feature = "io-uring")]
+pub mod uring {
+  use std::os::unix::io::RawFd;
+  use std::sync::atomic::{AtomicIsize, AtomicUsize, Ordering};
+
+  static SEND_POOL_TOTAL: AtomicUsize = AtomicUsize::new(0);
+  static SEND_POOL_FREE: AtomicUsize = AtomicUsize::new(0);
+  static RECV_CHUNKS_OUT: AtomicIsize = AtomicIsize::new(0);
+  static RECV_RING_ENTRIES: AtomicUsize = AtomicUsize::new(0);
+  static RECV_RING_PROVIDED: AtomicUsize = AtomicUsize::new(0);
+  static HANDLERS: AtomicUsize = AtomicUsize::new(0);
+  static FD_LOG: parking_lot::Mutex<Vec<FdEvent>> = parking_lot::Mutex::new(Vec::new());
+
+  #[derive(Debug, Clone, Copy, PartialEq, Eq)]
+  pub enum FdEvent {
+    HandlerAdded(RawFd),
+    HandlerRemoved(RawFd),
+    CloseSubmitted(RawFd),
+    CloseCompleted(RawFd, i32),
+  }
+
+  #[derive(Debug, Clone, Copy, PartialEq, Eq)]
+  pub struct Gauges {
+    pub send_pool_total: usize,
+    pub send_pool_free: usize,
+    pub recv_chunks_outstanding: isize,
+    pub recv_ring_entries: usize,
+    pub recv_ring_provided: usize,
+    pub handlers: usize,
+  }
+
+  pub fn gauges() -> Gauges {
+    Gauges {
+      send_pool_total: SEND_POOL_TOTAL.load(Ordering::SeqCst),
+      send_pool_free: SEND_POOL_FREE.load(Ordering::SeqCst),
+      recv_chunks_outstanding: RECV_CHUNKS_OUT.load(Ordering::SeqCst),
+      recv_ring_entries: RECV_RING_ENTRIES.load(Ordering::SeqCst),
+      recv_ring_provided: RECV_RING_PROVIDED.load(Ordering::SeqCst),
+      handlers: HANDLERS.load(Ordering::SeqCst),
+    }
+  }
+
+  pub fn take_fd_log() -> Vec<FdEvent> {
+    std::mem::take(&mut *FD_LOG.lock())
+  }
+
+  pub(crate) fn send_pool(free: usize, total: usize) {
+    SEND_POOL_FREE.store(free, Ordering::SeqCst);
+    SEND_POOL_TOTAL.store(total, Ordering::SeqCst);
+  }
+  pub(crate) fn recv_chunk(delta: isize) {
+    RECV_CHUNKS_OUT.fetch_add(delta, Ordering::SeqCst);
+  }
+  pub(crate) fn recv_ring(provided: usize, entries: usize) {
+    RECV_RING_PROVIDED.store(provided, Ordering::SeqCst);
+    RECV_RING_ENTRIES.store(entries, Ordering::SeqCst);
+  }
+  pub(crate) fn handlers(n: usize) {
+    HANDLERS.store(n, Ordering::SeqCst);
+  }
+  pub(crate) fn fd_event(e: FdEvent) {
+    FD_LOG.lock().push(e);
+  }
+}
